@@ -381,6 +381,13 @@ def index_menu(L, pkg):
         sel = [rng[i] for i in t]
         out.append(('index-array', 'array%s' % (list(t),), np.array(t, dtype=np.int64), sel))
         out.append(('index-list', 'list%s' % (list(t),), list(t), sel))
+    if pkg == 'torch':
+        t = lib.torch_mods()['torch']
+        for tp in tuples:
+            out.append(('index-torch-tensor', 'torch.tensor(%s)' % (list(tp),), t.tensor(list(tp), dtype=t.long), [rng[i] for i in tp]))
+        for mm in itertools.product((False, True), repeat=L):
+            if L > 0:
+                out.append(('mask-torch-tensor', 'torch.tensor(%s)' % (list(mm),), t.tensor(list(mm), dtype=t.bool), [i for i in rng if mm[i]]))
     if L:
         out.append(('index-array-out-of-range', 'array[%d]' % L, np.array([L]), 'IndexError'))
         out.append(('index-list-out-of-range', 'list[0, %d]' % (-L - 1), [0, -L - 1], 'IndexError'))
